@@ -572,7 +572,9 @@ func (e *env) v2Witness(cs consensus.State, orig types.Block, kinds []string) {
 				name = "in-block"
 				doneEph = true
 				if cs.Index.Height+1 < c.Net.N.HardforkV2.EphemeralOutputHeight {
-					must = false // documented legacy window: in-block parents' claimed contents are not cross-checked
+					// the claimed contents of an in-block parent are not cross-checked below this height; the
+					// statement makes no exception: judged under a key of its own
+					name = "in-block/below-the-ephemeral-output-height"
 				}
 				e.b.Count("in_block_parents_readdressed", 1)
 			} else {
